@@ -105,3 +105,16 @@ prop('C16', technique='contract-based deductive verification (string VCs) for IN
                  'proved to call it with the same (value, type); float digit generation (repr, round) only checked on enumerated values',
      assumptions=['CPython repr(float), round(x, n), int(text), float(text)'],
      not_covered=['SINGLE/DOUBLE digit correctness beyond the enumerated values', 'QBASIC vs Python numeral syntax for READ/INPUT/VAL'])
+prop('C12', technique='contract-based deductive verification of the stopping predicates and run loop (loop invariant, tick by frame contract), '
+                      'per command rather than per history',
+     explanation='Breakpoint matching, line-breakpoint resolution (first executable statement at or after the line in source order), run(): '
+                 'breakpoints evaluated after every tick and reported; next(): temporary breakpoint always removed; innermost-statement lookup',
+     assumptions=['the machine state is changed by tick() only (frame of run/next: last_breakpoint, halted, halt_reason, breakpoints)'],
+     not_covered=['trace clauses: "stepping stops in every simple statement in execution order", "next never stops inside a callee", progress of '
+                  'step/next (need termination of the stepped fragment) — not decidable per call', 'do_step / do_next themselves'])
+prop('C13', technique='contract-based deductive verification of the evaluator\\'s addressing (layout contracts) and frame conditions; arrays bounded',
+     explanation='eval_var resolves names through the layout functions of C04 (global first, then the frame\\'s routine); scalar, by-reference, record '
+                 'reads return the cell contents and write nothing; unknown / unassigned names are EvalError; arrays against arridx\\'s address function',
+     assumptions=['expression text parsing (pyparsing)', 'operators are evaluated by BinaryOp.eval / UnaryOp.eval, proved equivalent to the machine under C02'],
+     not_covered=['type resolution of names inside procedures (Lvalue.base_type through the main routine)', 'arrays beyond the bounded shapes',
+                  '__str__ renderings'])
